@@ -1,6 +1,6 @@
 """C02 - every schema-valid JSON instance deserializes into the generated type.
 (The same pipeline decides C03; see checks/c03.py.)"""
-import os, time, json
+import os, sys, time, json
 import vlib
 
 PROP = "C02"
@@ -28,9 +28,39 @@ def pipeline(tier, seed, replay=None):
     return cases, mc_stats, events, gst, bad, tstats, oc
 
 
+def excl_conformance(tier):
+    """Implementation model Exclusive (util.rs all_mutually_exclusive, convert_any_of) vs the code:
+    every state of MC_Excl is replayed into the real analysis and into anyOf conversion, and
+    Trace_Excl recomputes the model's answer for each recorded event.  Also collects what TLC
+    found about the analysis itself (answers "yes" for branches that share an instance)."""
+    cases, mc_stats, _ = vlib.run_mc("MC_Excl.tla", "Excl_%s.cfg" % tier, "Excl", workers=8, timeout=1500)
+    cpath = os.path.join(vlib.BUILD, "Excl.cases.ndjson")
+    epath = os.path.join(vlib.BUILD, "Excl.events.ndjson")
+    vlib.write_ndjson(cpath, cases)
+    vlib.sh([vlib.VDRIVE_BIN, "excl", cpath, epath], timeout=1200)
+    events = vlib.read_ndjson(epath)
+    if len(events) != len(cases):
+        raise vlib.ToolError("vdrive excl produced %d events for %d cases" % (len(events), len(cases)))
+    _, tstats = vlib.run_trace("Trace_Excl.tla", "Trace_Excl.cfg", events, "Excl", shards=8, timeout=1500)
+    div = tstats.pop("diverge", [])
+    if div:
+        print("NOTE: the implementation model spec/Exclusive.tla does not explain %d of %d recorded answers of "
+              "all_mutually_exclusive / convert_any_of (first: %s)" % (len(div), len(events), json.dumps(div[0])[:300]),
+              file=sys.stderr, flush=True)
+    answers = {}
+    for c in cases:
+        answers[c["model"]] = answers.get(c["model"], 0) + 1
+    return {"branch_lists": len(cases), "mc": mc_stats, "trace": tstats, "model_answers": answers,
+            "divergences_from_code": len(div), "divergence_samples": div[:3],
+            "analysis_says_exclusive_but_branches_share_an_instance": sum(1 for c in cases if c["unsound"]),
+            "analysis_not_symmetric": sum(1 for c in cases if not c["symmetric"]),
+            "code_panics": sum(1 for e in events if e["res"] == "panic")}
+
+
 def run(tier, seed, replay=None, prop=PROP):
     t0 = time.time()
     cases, mc_stats, events, gst, bad, tstats, oc = pipeline(tier, seed, replay)
+    excl = excl_conformance(tier) if replay is None else {}
     mine = [b for b in bad if b["prop"] == prop]
     nvalid = sum(1 for c in cases for p in c["probes"] if p["valid"])
     ndecl = sum(1 for c in cases for p in c["probes"] if p["valid"] and p["declared"])
@@ -60,7 +90,8 @@ def run(tier, seed, replay=None, prop=PROP):
          "documents": len(cases), "instances": sum(len(c["probes"]) for c in cases),
          "valid_instances": nvalid, "valid_declared_only": ndecl, "families": fams,
          "generated_crates": gst, "cases_not_generated_or_not_compiled": not_generated,
-         "oracle_selfcheck": {"checked": oc["checked"], "disagreements": oc["n_disagree"]}},
+         "oracle_selfcheck": {"checked": oc["checked"], "disagreements": oc["n_disagree"]},
+         "impl_model_exclusive": excl},
         ["draft-07 semantics as transcribed in Schema.tla, cross-checked on every instance of the run against jsonschema.Draft7Validator",
          "recognised integer formats are ranges; string formats are annotations and formatted probes are canonical conforming text",
          "cases whose schema is rejected or whose output does not compile are left to C01 (counted in cases_not_generated_or_not_compiled)",
